@@ -254,10 +254,10 @@ def featLive (win : Nat) (skip : Nat → Bool) (s : St) (ptr ncep : Nat) (beginu
   -- special case for entire utterances (l.1021-1023): the block path of `full_utt`
   if beginutt && endutt && decide (ncep > 0) then blockUtt win skip s ptr ncep outpos else
   let nbuf1 := liveNbuf win s ncep beginutt endutt
-  -- only consume as much input as fits, and cancel the end-of-utterance processing (l.1042-1049); with the 128-frame
-  -- cepstrum ring of the streaming path this never happens (proved); a ring enlarged by an earlier `full_utt`
+  -- only consume as much input as fits next to the left-context window, and cancel the end-of-utterance processing
+  -- (l.1042-1049); with the 128-frame cepstrum ring this never happens; a ring enlarged by an earlier `full_utt`
   -- utterance makes it reachable
-  let clamp := decide (nbuf1 + ncep > livebuf)
+  let clamp := decide (nbuf1 + ncep > livebuf - win)   -- (`- win`: D67 repair, the left context must survive)
   let ncep := if clamp then livebuf - nbuf1 - win else ncep
   let endutt := if clamp then false else endutt
   let s := liveIn win skip s ptr ncep beginutt endutt
@@ -315,7 +315,8 @@ def afterCep (s : St) (used : Nat) : St :=
     { s with nMfcFrame := s.nMfcFrame - used, mfcOutidx := (s.mfcOutidx + used) % s.nMfcAlloc }
   else fail "n_mfc_frame underflow" s
 
-def processMfcbuf (fixD8 : Bool) (win : Nat) (skip : Nat → Bool) (s : St) : CepRes :=
+/-- one pass of `acmod_process_mfcbuf` (the function body before the D62 repair, kept as `acmod_process_mfcbuf_once`) -/
+def processMfcbufOnce (fixD8 : Bool) (win : Nat) (skip : Nat → Bool) (s : St) : CepRes :=
   let ncep := s.nMfcFrame
   if s.mfcOutidx + ncep > s.nMfcAlloc then
     -- two parts because of the circular mfc_buf
@@ -324,11 +325,29 @@ def processMfcbuf (fixD8 : Bool) (win : Nat) (skip : Nat → Bool) (s : St) : Ce
     let s := if s.state = .ended then { s with state := .processing } else s
     let r1 := processCep fixD8 win skip s s.mfcOutidx ncep1
     let s := { afterCep r1.st r1.used with state := saved }
+    -- D66 repair: a first part that was not consumed completely leaves a queue that still wraps; come back for it
+    if r1.used < ncep1 then ⟨s, r1.used⟩ else
     let r2 := processCep fixD8 win skip s s.mfcOutidx (ncep - r1.used)
     ⟨afterCep r2.st r2.used, r2.used⟩
   else
     let r := processCep fixD8 win skip s s.mfcOutidx ncep
     ⟨afterCep r.st r.used, r.used⟩
+
+/-- the drain loop of the D62 repair: repeat the pass while it makes progress, cepstra are still queued and `feat_buf`
+    may grow; `ncep` is what the last pass returned -/
+def drainMfc (fixD8 : Bool) (win : Nat) (skip : Nat → Bool) : Nat → St → Nat → Nat → CepRes
+  | 0, s, _, total => ⟨fail "acmod_process_mfcbuf drain loop does not terminate" s, total⟩
+  | fuel + 1, s, ncep, total =>
+    if ncep > 0 ∧ s.nMfcFrame > 0 ∧ s.growFeat = true then
+      let r := processMfcbufOnce fixD8 win skip s
+      drainMfc fixD8 win skip fuel r.st r.used (if r.used > 0 then total + r.used else total)
+    else ⟨s, total⟩
+
+/-- `acmod_process_mfcbuf` (with the D62 repair): the dynamic-feature computation takes at most one live buffer of
+    frames per pass, which is less than `mfc_buf` can hold once a `full_utt` call has enlarged it -/
+def processMfcbuf (fixD8 : Bool) (win : Nat) (skip : Nat → Bool) (s : St) : CepRes :=
+  let r := processMfcbufOnce fixD8 win skip s
+  drainMfc fixD8 win skip (r.st.nMfcFrame + 1) r.st r.used r.used
 
 /-! ## the front end writing into the cepstrum ring -/
 
